@@ -618,6 +618,16 @@ def run(ctx, rep):
         widths = [rng.randint(WMAX + 1 if nv == 1 else 4, 16) for _ in range(nv)]
         left, right, es = exact_box(widths)
         sampled_config(rng.choice(["binary", "gray"]), left, right, widths, True, 40, "wide-exact")
+    # very wide exact grids: one variable of 17..50 bits (beyond any 16/32-bit shortcut), left = 0, h = 1: left + h*k is k exactly
+    for j in range(ctx.pick(16, 80)):
+        w = [17, 24, 31, 32, 33, 34, 40, 47, 50][j % 9] if j < 9 else rng.randint(17, 50)
+        extra = [rng.randint(1, 6)] if rng.random() < 0.5 else []
+        widths = [w] + extra
+        left = [0.0] * len(widths)
+        right = [float(2 ** x - 1) for x in widths]
+        sampled_config(["gray", "binary"][j % 2] if j >= 9 else "gray" if j % 2 == 0 else "binary", left, right, widths, True, 24, "very-wide-exact")
+    for w in (33, 40, 50):                               # both codecs at the widths a 32-bit shortcut would break
+        sampled_config("gray", [0.0], [float(2 ** w - 1)], [w], True, 24, "very-wide-exact")
     # random non-dyadic boxes
     for _ in range(ctx.pick(60, 600)):
         nv = rng.randint(1, 3)
